@@ -38,8 +38,9 @@ def capi_asan(seed, tier):
     t = 16 if tier == "thorough" else 6
     cfgs = [dict(profile="debug", header="capi", asan=True, threads=1),
             dict(profile="debug", header="capi", asan=True, threads=t),
-            dict(profile="release", header="capi", asan=True, threads=t)]
-    return _capi(seed, tier, cfgs, "client histories (create/read/overwrite+free input/free) under AddressSanitizer+LeakSanitizer, 1..%d threads" % t)
+            dict(profile="release", header="capi", asan=True, threads=t),
+            dict(profile="release", header="capi", asan=False, threads=1)]
+    return _capi(seed, tier, cfgs, "client histories (create/read/overwrite+free input/free) under AddressSanitizer+LeakSanitizer, 1..%d threads; soak of 20000/60000 simultaneously live dendrograms freed in three orders with glibc bytes-in-use accounting" % t)
 
 
 def capi_headers(seed, tier):
